@@ -408,6 +408,25 @@ def judge_one(site: Site, fa: T.List[str], pre: T.Dict[str, T.Any], post: T.Dict
     label = 'all-old' if n_new == 0 else ('all-new' if n_old == 0 else 'mixed-old-new')
     if 'Regenerating configuration from scratch' in r.text:
         label += ' (follow-up regenerated an unreadable coredata.dat from cmd_line.txt)'
+    if case['x'][0] in ('wipe', 'setup') and not site.case.get('_no_second_wipe'):
+        # "the directory remains usable": the repaired directory must also carry a complete record of how it was
+        # configured - a later `meson setup --wipe` (which re-derives everything from that record) must give the same values
+        rw = sub(['setup', '--wipe', site.B, site.S], site.pyc, site.root)
+        if rw.unhandled or rw.rc != 0:
+            first = norm_msg((rw.text.strip().splitlines() or ['?'])[-1], site)
+            return (f'wipe-after-repair-fails/{slug(re.sub(r"^.*ERROR:\\s*", "", first), 50)}',
+                    f'after the repair `{shown}` succeeded, `meson setup --wipe B S` fails (rc {rw.rc}): {first}\n' + norm_msg(rw.text[-900:], site)), 'wipe-after-repair-fails', noop
+        vals2, _ = site.introspect(inproc)
+        if vals2 is not None:
+            bad2 = [(n_, vals2[n_], [d[n_] for d in (pre, post) if n_ in d]) for n_ in sorted(vals2)
+                    if (n_ in pre or n_ in post) and vals2[n_] not in [d[n_] for d in (pre, post) if n_ in d]]
+            if bad2:
+                n_, g_, a_ = bad2[0]
+                return (f'option-value-after-later-wipe/{case["x"][0]}',
+                        f'`{shown}` repaired the directory (all values fine), but a later `meson setup --wipe B S` gives option {n_!r} = {g_!r} '
+                        f'(allowed: {a_!r}): the repair did not restore the record of how the directory was configured. All offending options: '
+                        + ', '.join(f'{n}={g!r}' for n, g, _ in bad2[:8])), 'bad-value-after-later-wipe', noop
+        label += ' +later-wipe-ok'
     return None, label, noop
 
 
